@@ -3,7 +3,7 @@ import json, os, random
 import vlib
 from props import subhist_common as S
 
-TRANSLATORS = ["accept_order", "table_ops", "error_consts"]     # table_ops: Gen/TableOpsGen.v, how each site takes the subscriber table's mutex (Model/SubBook.v interprets it); error_consts: Model/SubBookWire.v (what the engine prints for the too-many-subscriptions refusal)
+TRANSLATORS = ["accept_order", "table_ops", "error_consts", "sub_limiter"]     # sub_limiter: Gen/SubLimiterGen.v, WHERE server/src creates the BoundedSubscriptions limiter (C06_limiter_created_per_connection); table_ops: Gen/TableOpsGen.v, how each site takes the subscriber table's mutex (Model/SubBook.v interprets it); error_consts: Model/SubBookWire.v (what the engine prints for the too-many-subscriptions refusal)
 MODELS = ["subhist"]
 BINS = {"release": ["subhist", "submt"]}
 RULE = ("cases = one script line each over {subscribe, accept, reject, handler return, abandoned subscribe call (pending sink "
@@ -15,8 +15,19 @@ RULE = ("cases = one script line each over {subscribe, accept, reject, handler r
         "short scripts; run on a real jsonrpsee_server::Server with max_subscriptions_per_connection(cap) and a counting "
         "IdProvider (harness/src/bin/subhist.rs) and on the extracted SubBook LTS (modelrun/subhist_driver.ml); results diffed "
         "line by line; the C06 oracle (tools/props/subhist_common.py:oracles: unsubscribe truth table, unsubscribe true only for "
-        "a subscription whose accept reported success on that connection, cap, slot return incl. abandoned calls, stays "
-        "active) is evaluated on the implementation output alone.  distinct non-trivial = distinct result lines in which at "
+        "a subscription whose accept reported success on that connection, cap, slot return incl. abandoned calls, a subscribe is "
+        "never refused with -32006 on a connection whose OWN live count is below the cap (subscribe-refused-below-own-cap when other "
+        "connections hold subscriptions at that moment, slot-not-returned otherwise), stays "
+        "active) is evaluated on the implementation output alone.  ENTRY POINT (script token E<server|tower>, default server): the "
+        "multi-connection families -- the targeted own-cap family (A fills its cap and is refused one more; B, holding nothing, "
+        "subscribes up to ITS OWN cap; A ends k by reject / drop pending / return / abandon / unsubscribe + last sink dropped / connection drop; B still at its "
+        "own count is still refused; A starts k new ones; B ends j and starts j; a third connection that holds nothing is admitted; caps 1..3), "
+        "random walks over 2..3 connections, the exhaustive short scripts with 2 connections, the 2-connection corpus and abandon-family "
+        "lines -- run each script under BOTH entry points: `server` = Server::builder().build(addr) + Server::start(module); `tower` = ONE "
+        "TowerServiceBuilder (ServerBuilder::to_service_builder(), same config: cap, id provider, abandon middleware) per history, CLONED "
+        "for every accepted TCP connection (.clone().build(methods, stop_handle)) and served from the harness's own accept loop with "
+        "serve_with_graceful_shutdown; the model is entry-point independent (one semaphore per connection, theorem "
+        "C06_cap_is_per_connection) and ignores the token.  distinct non-trivial = distinct result lines in which at "
         "least one subscribe call reached the handler.  "
         "THREADS (engine submt; a STRESS TEST in support of the search for a concrete failing schedule, not an enumeration): cases = one "
         "line `<conns> <subs_per_conn> <threads> <rounds> <seed>` each, run on a real Server on a MULTI-thread tokio runtime "
@@ -30,6 +41,13 @@ RULE = ("cases = one script line each over {subscribe, accept, reject, handler r
         "subscriber table takes a blocking lock(), read from the source by tools/translators/table_ops.py, hence the truth table and "
         "the slot accounting hold for ALL thread-level traces) and C06_cap_under_contention")
 TRUSTED = [
+    "harness, entry point `tower`: the accept loop of harness/src/bin/subhist.rs (one TowerService per accepted TCP connection, built from a clone of the "
+    "history's single TowerServiceBuilder; tower::service_fn cloning that service per request; TCP_NODELAY set by the harness); its outputs were "
+    "byte-identical to the `server` entry point on every script of the quick and thorough case sets",
+    "translator tools/translators/sub_limiter.py: textual (regex + brace matching over the comment-stripped server/src/**/*.rs): every `BoundedSubscriptions::new(` must sit "
+    "in TowerServiceNoHttp::call's `if .. enable_ws && is_upgrade_request {` block or in ws::connect, sized by <cfg>.max_subscriptions_per_connection, and every "
+    "construction of RpcServiceCfg::CallsAndSubscriptions must create its limiter on the spot; that ONE upgrade request = ONE connection, and that nothing else "
+    "(unsafe, a global) shares the semaphore, is read off those two functions by hand",
     "modelled, not verified: tokio mpsc/oneshot/semaphore semantics and the WS writer (Model/SubBook.v), tied by the differential run only",
     "harness: handler remote control, quiescence detection (barrier round-trips / idle rounds), counting IdProvider, frame canonicalisation (error.data dropped)",
     "harness: the rpc middleware `Abandon` installed on every server (races the subscribe-call future against a script-controlled signal, polls the inner "
@@ -165,8 +183,8 @@ def run(ctx):
     found = []
     for (line, tag), a, b in zip(cases, ri, rm):
         ctx.count(tag)
-        cap = line.split()[0]
-        ctx.count("cap:" + cap[1:])
+        ctx.count("cap:%d" % S.parse_line(line)[0])
+        ctx.count("entry:" + S.entry_of(line))
         o = S.oracles(line, a)
         keys = [k for k, _ in o["C06"]]
         if a != b:
